@@ -46,7 +46,7 @@ static long file_round(int it, const char *dir){ char pa[256], pb[256]; snprintf
   if(!do_write){ size_t off=0; while(off<total){ ssize_t w=write(fb,big+off,total-off); if(w<=0) break; off+=(size_t)w; } lseek(fb,0,SEEK_SET); }
   dispatch_queue_t q=dispatch_queue_create("eb.f",NULL); __block _Atomic int bdone=0, berr=-1, adone=0, aerr=-1; __block _Atomic long got=0, unwritten=-1;
   dispatch_io_t cb=dispatch_io_create(DISPATCH_IO_RANDOM,fb,q,^(int e){ (void)e; }), ca=dispatch_io_create(DISPATCH_IO_RANDOM,fa,q,^(int e){ (void)e; });
-  if(!ca||!cb) return 0; dispatch_io_set_high_water(cb,64*1024);
+  if(!ca||!cb) return 0; dispatch_io_set_high_water(cb,64*1024); if(rnd()%2) dispatch_io_set_interval(cb,(uint64_t)(100+rnd()%900)*1000ull, rnd()%2?DISPATCH_IO_STRICT_INTERVAL:0);      // deliveries on a timer as well
   if(do_write){ dispatch_data_t w=dispatch_data_create(big,total,NULL,DISPATCH_DATA_DESTRUCTOR_DEFAULT);
     dispatch_io_write(cb,0,w,q,^(bool done,dispatch_data_t d,int e){ if(done){ atomic_store(&unwritten,d?(long)dispatch_data_get_size(d):0); atomic_store(&berr,e); atomic_fetch_add(&bdone,1); } }); dispatch_release(w); }
   else dispatch_io_read(cb,0,total,q,^(bool done,dispatch_data_t d,int e){ if(d) atomic_fetch_add(&got,(long)dispatch_data_get_size(d)); if(done){ atomic_store(&berr,e); atomic_fetch_add(&bdone,1); } });
